@@ -1050,7 +1050,7 @@ UttSpec genUtt(Choices &c, bool target) {
   case 0: N = 0; break;
   case 1: N = c.range(1, 3000); break;
   case 2: N = c.range(3000, 16000); break;
-  default: N = c.range(16000, 40000); break;
+  default: N = c.range(16000, 30000); break;
   }
   u.audio = audio::recipe(c, (size_t)N, u.adesc, true, target ? 16 : 8);
   size_t mode = c.weighted({5, 2, 2}); // streaming | buffered (no_search) | full_utt
@@ -1058,7 +1058,7 @@ UttSpec genUtt(Choices &c, bool target) {
     u.plan.fullUtt = true;
     u.plan.chunks = {{(size_t)N, false, false}};
   } else {
-    u.plan.chunks = genChunks(c, (size_t)N, false, target ? 20 : 30);
+    u.plan.chunks = genChunks(c, (size_t)N, false, target ? 15 : 10);
     u.plan.recordPartials = target;
     if (mode == 1)
       for (size_t i = 0; i + 1 < u.plan.chunks.size(); ++i) u.plan.chunks[i].noSearch = true;
